@@ -328,8 +328,12 @@ func H09u() {
 	opts := []struct{ text, sig string }{
 		{"type string;", "string"}, {"type host;", "string"}, {"type label;", "string"}, {"type int8;", "int8"},
 		{"type enumeration { enum e1; enum e2; }", "enum"}, {"type pat;", "string-pattern"}, {"type uint32;", "uint32"}, {"type nosuch;", "ERR"},
+		{"type bits { bit p; }", "bits-p"}, {"type bits { bit q; bit r; }", "bits-qr"}, {"type enumeration { enum z; }", "enum-z"},
 	}
-	n := 3 + symChoice(2)
+	n := 3
+	if param("four") == 1 {
+		n = 3 + symChoice(2)
+	}
 	body := ""
 	var sigs []string
 	bad := false
@@ -387,7 +391,13 @@ func H09u() {
 			case "uint32":
 				check(got.Kind == Yuint32, "members keep their written order")
 			case "enum":
-				check(got.Kind == Yenum, "members keep their written order")
+				check(got.Kind == Yenum && got.Enum != nil && len(got.Enum.NameMap()) == 2, "members keep their written order")
+			case "enum-z":
+				check(got.Kind == Yenum && got.Enum != nil && len(got.Enum.NameMap()) == 1, "members keep their written order")
+			case "bits-p":
+				check(got.Kind == Ybits && got.Bit != nil && len(got.Bit.NameMap()) == 1, "members keep their written order")
+			case "bits-qr":
+				check(got.Kind == Ybits && got.Bit != nil && len(got.Bit.NameMap()) == 2, "members keep their written order")
 			}
 		}
 	}
